@@ -158,7 +158,7 @@ func neutral(p string) string {
 		}
 	}
 	s := string(b)
-	low := strings.ToLower(s)
+	low := asciiLower(s) // byte for byte: offsets in low are offsets in s
 	for _, sch := range []string{"javascript", "vbscript", "data"} {
 		// same length replacement keeps offsets comparable
 		for {
@@ -262,6 +262,18 @@ func userinfoSafe(s string) string {
 		c := s[i]
 		if c >= 'a' && c <= 'z' || c >= 'A' && c <= 'Z' || c >= '0' && c <= '9' || strings.IndexByte("-._:~!$&'()*+,;=%", c) >= 0 {
 			b = append(b, c)
+		}
+	}
+	return string(b)
+}
+
+// asciiLower lower-cases A-Z only and keeps every other byte (strings.ToLower re-encodes invalid UTF-8 and
+// some letters to a different length).
+func asciiLower(s string) string {
+	b := []byte(s)
+	for i, c := range b {
+		if c >= 'A' && c <= 'Z' {
+			b[i] = c + 32
 		}
 	}
 	return string(b)
